@@ -17,6 +17,8 @@ STUBS = [
     'yaml.safe_load in model -> deep copy of the shape\'s configuration dictionary with symbolic numeric leaves',
     'parse_expression as imported into preprocessor.condition: designated operand names (c1, c2, ...) yield a numeric '
     'node holding a symbolic integer, every other text goes to the real parser',
+    'packaging.version in model and required_language: parse() of a designated token yields a symbolic (major, minor, '
+    'patch, pre-release) tuple compared lexicographically; other text goes to the real parser first',
     'process-global state reset per path: LabelScope._global_scope, InstructionLine._INSTRUCTUION_EXTRACTION_PATTERN, '
     'AssemblyFile.load_line_objects default set',
 ]
@@ -116,9 +118,108 @@ def install():
     model.click = _Click
     import bespokeasm.assembler.assembly_file as af
     af.click = _Click
+    model.version = _VersionStub
+    import bespokeasm.assembler.line_object.preprocessor_line.required_language as rl
+    rl.version = _VersionStub
     import bespokeasm.assembler.preprocessor.condition as cond
     cond.parse_expression = _cond_parse_expression
     _installed = True
+
+
+class SymVersion:
+    """Stand-in for packaging.version.Version: (major, minor, patch, stage) with stage -1 = pre-release, 0 = final."""
+
+    def __init__(self, comps):
+        self.c = [x if isinstance(x, E.SymInt) else E.SymInt(E.bvval(x)) for x in comps]
+
+    def _lex(self, o, strict_op, final):
+        import z3
+        a, b = [x.e for x in self.c], [x.e for x in o.c]
+        res = final
+        for x, y in reversed(list(zip(a, b))):
+            res = z3.If(x == y, res, strict_op(x, y))
+        return E.SymBool(res)
+
+    def __lt__(self, o): import z3; return self._lex(o, lambda x, y: x < y, z3.BoolVal(False))      # noqa
+    def __le__(self, o): import z3; return self._lex(o, lambda x, y: x < y, z3.BoolVal(True))       # noqa
+    def __gt__(self, o): import z3; return self._lex(o, lambda x, y: x > y, z3.BoolVal(False))      # noqa
+    def __ge__(self, o): import z3; return self._lex(o, lambda x, y: x > y, z3.BoolVal(True))       # noqa
+
+    def __eq__(self, o):
+        import z3
+        return E.SymBool(z3.And(*[x.e == y.e for x, y in zip(self.c, o.c)]))
+
+    def __ne__(self, o):
+        return ~(self == o)
+
+    def __hash__(self):
+        return 3
+
+
+class SymVersionToken:
+    """What the configuration holds where a version string is expected; str() gives a token the stub recognises."""
+    registry = {}
+
+    def __init__(self, name, comps, bits=11):
+        self.name = name
+        self.comps = list(comps)
+        self.bits = bits
+        SymVersionToken.registry[f'@@ver:{name}@@'] = self
+
+    def __str__(self):
+        return f'@@ver:{self.name}@@'
+
+    def strip(self):
+        return str(self)
+
+    def __format__(self, spec):
+        return str(self)
+
+    # If the code under analysis compares the version *as text* (the historical defect), the comparison cannot be
+    # decided symbolically within budget (z3 strings + int/bit-vector links return unknown).  The path is forked over a
+    # catalogue of version texts - each fork is a concrete, replayable candidate - and everything outside the catalogue
+    # is reported as inconclusive, never as held.
+    CATALOGUE = [(0, 4, 10, 0), (0, 10, 0, 0), (0, 4, 3, 0), (0, 2, 10, 0), (0, 3, 0, 0), (0, 4, 2, 0), (1, 0, 0, 0),
+                 (0, 4, 3, 1), (0, 30, 0, 0), (0, 4, 1, 0), (10, 0, 0, 0), (0, 0, 9, 0)]
+
+    def _concrete_text(self):
+        import z3
+        for cand in SymVersionToken.CATALOGUE:
+            if E.Ctx.cur.decide(z3.And(*[c.e == E.bvval(v) for c, v in zip(self.comps, cand)]), prefer=True):
+                return f'{cand[0]}.{cand[1]}.{cand[2]}' + ('b1' if cand[3] else '')
+        raise E.Inconclusive('version compared as text for a value outside the catalogue')
+
+    def __gt__(self, other):
+        return self._concrete_text() > str(other)
+
+    def __lt__(self, other):
+        return self._concrete_text() < str(other)
+
+    def __ge__(self, other):
+        return self._concrete_text() >= str(other)
+
+    def __le__(self, other):
+        return self._concrete_text() <= str(other)
+
+
+class _VersionStub:
+    """`packaging.version` as seen by model / required_language: parse() of a token yields a symbolic version, parse()
+    of ordinary text the real version reduced to (major, minor, patch, stage)."""
+    import packaging.version as _real
+    VERSION_PATTERN = _real.VERSION_PATTERN
+    overrides = {}
+
+    @staticmethod
+    def parse(text):
+        t = str(text).strip()
+        if t in _VersionStub.overrides:
+            return SymVersion(_VersionStub.overrides[t])
+        tok = SymVersionToken.registry.get(t)
+        if tok is not None:
+            return SymVersion(tok.comps[:3] + [-tok.comps[3]])
+        v = _VersionStub._real.parse(t)
+        rel = list(v.release) + [0, 0, 0]
+        return SymVersion(rel[:3] + [-1 if v.is_prerelease else 0])
 
 
 def set_condition_symbols(mapping):
